@@ -1,6 +1,6 @@
 """Lemmas about spec functions, proved by induction as two VCs each (DESIGN 2.3). No lemma is assumed."""
 from z3 import Const, ForAll, Implies, And, BoolVal, IntVal, substitute
-from .types import sort, INT, fresh
+from .ty import sort, INT, fresh
 from .engine import LEMMAS, Oblig
 
 REGISTRY = {}
